@@ -1,11 +1,10 @@
 /-
 Model of `libs/db` (C19): the reference ordered map, `MemDB` (map + `getSortedKeys`), `memBatch`,
 `PrefixDB`, and the leaf functions `IsKeyInDomain`, `cpIncr`, `cpDecr`, `PrefixToEnd`, `IteratePrefix`.
-Core Lean only.  The model mirrors what the Go code does today, defects included:
-  * `cpIncr` is a FIXED-WIDTH increment (66ff -> 6700), so `IteratePrefix`/`PrefixDB` bounds built from it
-    overrun prefixes that end in 0xff;
-  * goleveldb's `Load`/`Exist` report a key whose tombstone is still in the memtable as present;
-  * badger's reverse iterator treats an empty non-nil start like nil.
+Core Lean only.  The model mirrors what the Go code does today (after the repairs b779b6d, cf43a03, afaf3d1,
+e8d9b40, 201fd44): prefix ranges end at `PrefixToEnd(prefix)`; goleveldb's `Load`/`Exist` are the reference;
+a badger reverse iterator with an empty non-nil start is empty; `cpIncr` is dead code (no caller) and is not
+modelled any more, `cpDecr` still bounds `PrefixDB.ReverseIterator(_, nil)`.
 `[]byte` is `List UInt8`; a Go slice that may be nil (iterator bounds) is `Option (List UInt8)`.
 -/
 namespace Model.KV
@@ -46,15 +45,7 @@ def isKeyInDomain (key : Bytes) (s e : Bound) (rev : Bool) : Bool :=
     else if e.isSome && ble key (bval e) then false
     else true
 
-/-- the loop of `cpIncr` on a non-empty slice: fixed-width big-endian +1, `none` (Go nil) on overflow -/
-def cpIncrCore : Bytes → Option Bytes
-  | [] => none
-  | b :: rest =>
-    match cpIncrCore rest with
-    | some r => some (b :: r)
-    | none => if b.toNat < 255 then some ((b + 1) :: rest.map (fun _ => 0)) else none
-
-/-- the loop of `cpDecr` -/
+/-- the loop of `cpDecr` on a non-empty slice: fixed-width big-endian -1, `none` (Go nil) on underflow -/
 def cpDecrCore : Bytes → Option Bytes
   | [] => none
   | b :: rest =>
@@ -62,8 +53,7 @@ def cpDecrCore : Bytes → Option Bytes
     | some r => some (b :: r)
     | none => if 0 < b.toNat then some ((b - 1) :: rest.map (fun _ => 255)) else none
 
-/-- `cpIncr`: outer `none` = Go panics ("expects non-zero bz length") -/
-def cpIncr (bz : Bytes) : Option Bound := if bz.isEmpty then none else some (cpIncrCore bz)
+/-- `cpDecr`: outer `none` = Go panics ("expects non-zero bz length") -/
 def cpDecr (bz : Bytes) : Option Bound := if bz.isEmpty then none else some (cpDecrCore bz)
 
 /-- `PrefixToEnd`: the last byte below 0xff incremented, everything after it dropped; nil if there is none -/
@@ -165,25 +155,27 @@ def refI : DBI Ref :=
   { get := Ref.get, load := Ref.get, exist := fun m k => (Ref.get m k).isSome, set := Ref.set, del := Ref.del,
     iter := Ref.iter, riter := Ref.riter, reopen := id }
 
-/-- badger: `Seek` with an empty key rewinds, so a reverse iterator with an empty non-nil start begins at the last key -/
+/-- badger: a reverse iterator with an empty non-nil start is born invalid (`isInvalid: isReverse && start != nil &&
+len(start) == 0`).  Badger stores no empty key, so this IS the reference answer on every reachable store
+(theorem `bdg_riter_eq_ref`). -/
 def bdgI : DBI Ref :=
-  { refI with riter := fun m s e => Ref.riter m (match s with | some [] => none | x => x) e }
+  { refI with riter := fun m s e => match s with | some [] => [] | _ => Ref.riter m s e }
 
-/-- goleveldb: the reference plus the keys whose tombstone is still in the memtable (cleared by reopen):
-`Load` returns an empty non-nil value for them and `Exist` says true -/
-structure Ldb where
-  m : Ref
-  tomb : List Bytes
-deriving Repr
+/-- goleveldb: the reference (`Load` returns a nil value with the error since cf43a03) -/
+def ldbI : DBI Ref := refI
 
-def ldbI : DBI Ldb :=
-  { get := fun db k => Ref.get db.m k,
-    load := fun db k => match Ref.get db.m k with | some v => some v | none => if db.tomb.contains k then some [] else none,
-    exist := fun db k => (Ref.get db.m k).isSome || db.tomb.contains k,
-    set := fun db k v => ⟨Ref.set db.m k v, db.tomb.filter (fun t => !(t == k))⟩,
-    del := fun db k => ⟨Ref.del db.m k, k :: db.tomb.filter (fun t => !(t == k))⟩,
-    iter := fun db s e => Ref.iter db.m s e, riter := fun db s e => Ref.riter db.m s e,
-    reopen := fun db => ⟨db.m, []⟩ }
+/-- what a batch object holds after `Write`/`Commit`, per adapter: `memBatch.write` and goleveldb's `Batch` keep the
+recorded operations (a second `Write` without `Reset` applies them again); bolt's `Write` ends with `Reset()` and
+badger's with `renew()` (fresh WriteBatches), so there the batch is empty afterwards -/
+inductive AfterWrite where
+  | keeps
+  | empty
+deriving Repr, DecidableEq
+
+def batchAfterWrite (aw : AfterWrite) (ops : List BOp) : List BOp :=
+  match aw with
+  | .keeps => ops
+  | .empty => []
 
 def applyBOp {σ} (I : DBI σ) (db : σ) : BOp → σ
   | .set k v => I.set db k v
@@ -194,9 +186,9 @@ def writeBatch {σ} (I : DBI σ) (db : σ) (ops : List BOp) : σ := ops.foldl (a
 
 /-! ## `IteratePrefix`, `NewIteratorWithPrefix` -/
 
-/-- `IteratePrefix(db, prefix)`: `Iterator(prefix, cpIncr(prefix))`, whole store for the empty prefix -/
+/-- `IteratePrefix(db, prefix)`: `Iterator(prefix, PrefixToEnd(prefix))`, whole store for the empty prefix -/
 def iteratePrefix {σ} (I : DBI σ) (db : σ) (p : Bytes) : List KV :=
-  if p.isEmpty then I.iter db none none else I.iter db (some p) (cpIncrCore p)
+  if p.isEmpty then I.iter db none none else I.iter db (some p) (prefixToEnd p)
 
 /-- `NewIteratorWithPrefix(prefix)` of every adapter: `Iterator(prefix, PrefixToEnd(prefix))`
 (`p` as given: nil stays nil) -/
@@ -209,21 +201,16 @@ def strip (p : Bytes) (kv : KV) : KV := (kv.1.drop p.length, kv.2)
 /-- what a `prefixIterator` yields from its source: up to the first key without the prefix, prefix stripped -/
 def prefixTake (p : Bytes) (src : List KV) : List KV := (src.takeWhile (fun kv => hasPrefix p kv.1)).map (strip p)
 
-/-- bounds handed to the underlying `Iterator`; outer `none` = panic (empty prefix and nil end) -/
-def pfxBoundsFwd (p : Bytes) (s e : Bound) : Option (Bound × Bound) :=
-  let pstart := some (p ++ bval s)
-  match e with
-  | none => (cpIncr p).map (fun pe => (pstart, pe))
-  | some e' => some (pstart, some (p ++ e'))
+/-- bounds handed to the underlying `Iterator` (never panics since the repair) -/
+def pfxBoundsFwd (p : Bytes) (s e : Bound) : Bound × Bound :=
+  (some (p ++ bval s), match e with | none => prefixToEnd p | some e' => some (p ++ e'))
 
-/-- bounds handed to the underlying `ReverseIterator` -/
+/-- bounds handed to the underlying `ReverseIterator`; `none` = panic (`cpDecr` of an empty prefix, nil end) -/
 def pfxBoundsRev (p : Bytes) (s e : Bound) : Option (Bound × Bound) :=
-  match (match s with | none => cpIncr p | some s' => some (some (p ++ s'))) with
-  | none => none
-  | some pstart =>
-    match (match e with | none => cpDecr p | some e' => some (some (p ++ e'))) with
-    | none => none
-    | some pend => some (pstart, pend)
+  let pstart : Bound := match s with | none => prefixToEnd p | some s' => some (p ++ s')
+  match e with
+  | none => (cpDecr p).map (fun pend => (pstart, pend))
+  | some e' => some (pstart, some (p ++ e'))
 
 /-- `skipOne(itr, skipKey)`: drop the first item if its key equals skipKey (`bytes.Equal`, nil = empty) -/
 def skipOne (src : List KV) (skip : Bound) : List KV :=
@@ -231,27 +218,27 @@ def skipOne (src : List KV) (skip : Bound) : List KV :=
   | [] => []
   | kv :: rest => if kv.1 == bval skip then rest else kv :: rest
 
-/-- `prefixDB.Iterator(start, end)`, drained; `none` = panic -/
-def pfxIter {σ} (I : DBI σ) (db : σ) (p : Bytes) (s e : Bound) : Option (List KV) :=
-  (pfxBoundsFwd p s e).map (fun (ps, pe) => prefixTake p (I.iter db ps pe))
+/-- `prefixDB.Iterator(start, end)`, drained -/
+def pfxIter {σ} (I : DBI σ) (db : σ) (p : Bytes) (s e : Bound) : List KV :=
+  prefixTake p (I.iter db (pfxBoundsFwd p s e).1 (pfxBoundsFwd p s e).2)
 
-/-- `prefixDB.ReverseIterator(start, end)`, drained.  With a nil start the code calls `cpIncr` twice
-(bound and skip key) before anything else, so an empty prefix panics. -/
+/-- `prefixDB.ReverseIterator(start, end)`, drained; `none` = panic.  With a nil start the source starts at
+`PrefixToEnd(prefix)` (inclusive) and that one key is skipped (`skipOne`). -/
 def pfxRIter {σ} (I : DBI σ) (db : σ) (p : Bytes) (s e : Bound) : Option (List KV) :=
   (pfxBoundsRev p s e).map (fun (ps, pe) =>
     let src := I.riter db ps pe
-    let src := if s.isNone then skipOne src (cpIncrCore p) else src
+    let src := if s.isNone then skipOne src (prefixToEnd p) else src
     prefixTake p src)
 
 /-- `prefixDB.NewIteratorWithPrefix(prefix)`: start = prefix, end = PrefixToEnd(prefix), then as `Iterator` -/
-def pfxPrefixIter {σ} (I : DBI σ) (db : σ) (p : Bytes) (q : Bound) : Option (List KV) :=
+def pfxPrefixIter {σ} (I : DBI σ) (db : σ) (p : Bytes) (q : Bound) : List KV :=
   pfxIter I db p q (prefixToEnd (bval q))
 
 /-- the view as a `DBI` over the same state (iteration panics are surfaced by the `pfx*` functions above) -/
 def pfxI {σ} (I : DBI σ) (p : Bytes) : DBI σ :=
   { get := fun db k => I.get db (p ++ k), load := fun db k => I.load db (p ++ k), exist := fun db k => I.exist db (p ++ k),
     set := fun db k v => I.set db (p ++ k) v, del := fun db k => I.del db (p ++ k),
-    iter := fun db s e => (pfxIter I db p s e).getD [], riter := fun db s e => (pfxRIter I db p s e).getD [],
+    iter := fun db s e => pfxIter I db p s e, riter := fun db s e => (pfxRIter I db p s e).getD [],
     reopen := I.reopen }
 
 /-- specification of a prefixed view: the entries under the prefix, prefix stripped -/
